@@ -1,5 +1,6 @@
 import Secp.Proofs.Sswu
-import Secp.Proofs.DecodeRT
+import Secp.Proofs.Encode
+import Secp.Proofs.SqrtConstsLimb
 /-!
 # `IsogenySecp256k13iso ∘ SSWU` at the limb implementation is RFC 9380 `map_to_curve` for secp256k1 (C11)
 -/
